@@ -80,10 +80,10 @@ let handle kind c =
                  end else "write-read"
                | _ -> if collides (components n) !sp then "read-absent-colliding" else "read-absent")
             | OList _ -> if deviating !sp op then "list-below-non-utf8-dir" else "list-exact"
-            | OCopy _ -> if deviating !sp op then "copy-onto-itself" else "copy-outcome" in
+            | OCopy (d, sr) -> if d = sr then "copy-onto-itself" else "copy-outcome" in
           prop cls (Printf.sprintf "op %d %s: property expects %s, bucket answered %s" !i (show_op op) (show_res rs) impl)
         end;
-        self_copied := (match op with OCopy (d, _) when deviating !sp op -> Some d | _ -> None);
+        self_copied := (match op with OCopy (d, sr) when d = sr -> Some d | _ -> None);
         sp := !sp') ops;
     if not confined then prop "confined" "a path outside the bucket directory was created or changed";
     (* the directory tree on disk vs the model tree *)
